@@ -436,9 +436,13 @@ _TODO = []
 
 def _run_index(i):
     t = _TODO[i]
-    if t[0] == "patch":
-        return run_patch(*t[1:])
-    return run_one(*t)
+    try:
+        if t[0] == "patch":
+            return run_patch(*t[1:])
+        return run_one(*t)
+    except Exception as e:       # a variant must never take the whole run down (RecursionError in a fold, ...)
+        vid, prop = (t[1], t[2]) if t[0] == "patch" else (t[0], t[1])
+        return (vid, prop, "analysis-error", f"internal error on this variant: {type(e).__name__}: {str(e)[:120]}")
 
 
 def collect(props=None, jobs=16, patches=False):
